@@ -167,6 +167,24 @@ theorem align_exact_of_zero_residual (lsq : Lsq ℝ) (origin : Vec3 ℝ) (xAxis 
   subst hkb
   exact (deFlipSpec_signs raw _ _).2
 
+/-- **approximate convergence is enough.**  If every component of the residual at the optimiser's answer is at most `ε`
+in magnitude, so is every component of the residual of the transformation `align` returns (the de-flip only changes signs):
+origin sample within `ε` of (0,0,0) per coordinate, x-axis samples within `ε` of the X axis, plane samples within `ε` of Z = 0. -/
+theorem align_residual_bound (ε : ℝ) (lsq : Lsq ℝ) (origin : Vec3 ℝ) (xAxis xyPlane : List (Vec3 ℝ))
+    (bsPoses result : List (Nat × Pose ℝ)) (T raw : Pose ℝ)
+    (h : align lsq origin xAxis xyPlane bsPoses = .ok (result, T))
+    (hraw : findTransformation lsq origin xAxis xyPlane = .ok raw)
+    (hconv : ∃ r, calcResidualOf raw origin xAxis xyPlane = .ok r ∧ ∀ c ∈ r, |c| ≤ ε) :
+    ∃ r, calcResidualOf T origin xAxis xyPlane = .ok r ∧ ∀ c ∈ r, |c| ≤ ε := by
+  obtain ⟨raw', x, xs', k, b, bs', hr, _, _, _, hT, _⟩ :=
+    align_ok gen_deflip.1 gen_deflip.2.1 gen_deflip.2.2.1 gen_deflip.2.2.2 h
+  rw [hraw] at hr
+  injection hr with hr
+  subst hr
+  rw [hT]
+  exact deFlipSpec_residual_bound gen_residual_slices.1 gen_residual_slices.2.1 gen_residual_slices.2.2 ε raw origin
+    xAxis xyPlane _ _ hconv
+
 /-- **x-axis samples land on the positive X axis.**  If the x-axis samples were taken on one ray from the origin sample
 (`origin + c·u`, `c > 0`), any rigid transformation with zero residual that puts their mean at X ≥ 0 — in particular the
 one `align` returns after convergence — maps each of them to `(its distance from the origin sample, 0, 0)`. -/
